@@ -195,6 +195,36 @@ def fault_histories():
         yield {"family": "faults", "a": i, "b": i}, [steps[i], steps[i]]
 
 
+# A read that is ABORTED while documentation text is pending (comment lines seen, not yet attached), then a documented definition.
+DOC_ABORTS = [
+    "# stale header line 1\n# stale header line 2\nuint65 x\n@sealed\n",
+    "uint8 a\n# stale attribute doc\nuint8[0] y\n@sealed\n",
+    "# stale\nNope.1.0 n\n@sealed\n",
+    "uint8 a # stale trailing\n# more stale\nuint8 K = 256\n@sealed\n",
+    "# stale before directive\n@assert false\n@sealed\n",
+    "@sealed\n# stale in response\n---\n# stale 2\nuint8[<=0] z\n@sealed\n",
+    "# stale header\n",
+]
+DOC_VALID = [
+    "uint8 a\n@sealed\n",
+    "# Header\n\nuint8 a\n# doc of a\nuint8 b # doc of b\n@sealed\n",
+    "@sealed\nuint8 a\n",
+    "# Service header\nuint8 q # doc q\n@sealed\n---\nuint8 r\n# doc r\n@sealed\n",
+    "#\n# second line only\nuint8 K = 1 # constant doc\n@sealed\n",
+]
+
+
+def doc_fault_histories():
+    def st(text):
+        return {"files": {"qqa/T.1.0.dsdl": text}, "op": "rn", "root": "qqa", "lookups": []}
+
+    for i, a in enumerate(DOC_ABORTS):
+        for j, v in enumerate(DOC_VALID):
+            yield {"family": "doc-faults", "abort": i, "valid": j}, [st(a), st(v)]
+            if j < 2:
+                yield {"family": "doc-faults", "abort": i, "valid": j, "again": True}, [st(v), st(a), st(DOC_VALID[(j + 1) % len(DOC_VALID)])]
+
+
 # The same tree under different flags: a dependency with an unregulated port-ID.
 FLAG_TREE = {"qqa/App.1.0.dsdl": "qql.Thing.1.0 t\n@sealed\n", "qql/100.Thing.1.0.dsdl": "uint8 v\n@sealed\n", "qqa/7000.Own.1.0.dsdl": "@sealed\n"}
 FLAG_TREE2 = {"qqa/App.1.0.dsdl": "uint8 t\n@sealed\n", "qqa/100.Own.1.0.dsdl": "@sealed\n"}
@@ -320,6 +350,7 @@ FAMILIES = {
     "wide-revisions": wide_revision_histories,
     "shared-arguments": shared_argument_histories,
     "minor-versions": minor_version_histories,
+    "doc-faults": doc_fault_histories,
     "minor-version-edits": minor_version_edit_histories,
     "nested-revisions": nested_revision_histories,
     "faults": fault_histories,
